@@ -29,6 +29,14 @@ T = {
         tech="product exploration (bisimulation up to observations) of each real automaton representation/option with the one TLA+ specification automaton, by TLC; trace validation of identical calls through all kinds and the top-level searcher",
         text="Every representation (noncontiguous with 4 dense depths, contiguous with 6 dense-depth/byte-class settings, DFA with 3 start kinds x byte classes, with/without prefilter) is shown observationally equivalent to the same specification automaton on its entire reachable product, hence to each other for haystacks of every length; API-level calls through all seven kinds/entry levels are validated against the oracle.",
         ref="6 C04"),
+    "C07": dict(
+        tech="TLA+ spec ACStream (Buffer fill/roll + StreamChunkIter, nondeterministic reader) model-checked with TLC over all read schedules and capacities; TLC trace validation (TraceStream) of recorded runs of the real stream search with scripted readers and hooked buffer capacity",
+        text="TLC explores every read-size schedule for every small stream / pattern list / capacity min+{1,2,3,6} and checks that matches equal the in-memory iterator's (MatchPrefix, Complete) and the buffer indices never go wrong; every recorded run of the real StreamFindIter / stream replacement (exhaustive scripts on short streams at minimal capacities, seeded random longer ones up to the default capacity) is replayed action by action through the same specification, with all invariants evaluated at each step.",
+        ref="6 C07", note=TRUST + "; hook H1 (buffer capacity override, cfg aho_corasick_verif) is the only instrumentation: reads, writes and closure calls are observed from outside"),
+    "C08": dict(
+        tech="TLA+ spec ACStream (chunk emission sites, ChunkConcat invariant) model-checked with TLC; TLC trace validation of every write/closure call of real try_stream_replace_all_with runs; table replacement output compared with the in-memory replacement oracle by TLC",
+        text="ChunkConcat (the concatenation of emitted chunks is the stream) and the match-chunk alignment are invariants over all schedules/capacities in the model; in the recorded runs each write is one non-match chunk and each closure call one match chunk, and each must be exactly the chunk the specification emits next; try_stream_replace_all outputs are validated against ReplaceOracle.",
+        ref="6 C08", note=TRUST + "; hook H1 only"),
     "C09": dict(
         tech="TLA+ spec (ACSearch, ACIter, ACOverlap with anchored=TRUE) model-checked with TLC; product exploration in anchored mode; trace validation of anchored find/iter/stepwise-overlapping calls",
         text="Anchored find, iteration and stepwise overlapping are exhausted in the model against the anchored oracle; anchored walks of the real automata (NFA anchored start, DFA anchored copy) are product-explored; recorded anchored calls validated.",
@@ -41,6 +49,10 @@ T = {
         tech="TLA+ spec ACSearch with earliest mode (incl. abstract sound prefilters) model-checked with TLC; trace validation of is_match / earliest calls",
         text="EarliestOK and IsMatchAgrees are invariants of the search machine for all configurations within bounds; recorded is_match and earliest calls are validated against the same predicates.",
         ref="6 C14"),
+    "C18": dict(
+        tech="TLA+ spec ACStream with a failing reader/writer (every failure position x every schedule) model-checked with TLC; TLC trace validation of real runs with injected read, write and closure failures at every position",
+        text="With MaxFaults=1 the model lets the reader fail at any read and the writer/closure at any emission; ChunkConcat/MatchPrefix/Indices hold in every reachable state including the failed ones and `done` requires a reader-reported end. Real runs with a failure injected at every read index and every emission index (short streams, exhaustive) and random positions (longer) must end with an error (never a panic) and replay through the specification.",
+        ref="6 C18", note=TRUST + "; hook H1 only"),
     "C16": dict(
         tech="product exploration of the real automata (all reachable states x all bytes x both anchoring arguments) with the TLA+ specification automaton by TLC; trace validation of the documented caller-written loop vs the built-in search",
         text="For each dumped automaton the local contract (dead absorbing, dead/match special, special => dead/match/start, valid non-empty match lists, start_state errors) is evaluated by TLC on every state of the closure under both anchoring arguments, and the consistent-mode product agrees with the specification; the documented recipe, run on the real automata, is validated against the oracle next to try_find.",
